@@ -430,7 +430,20 @@ def minimize_lbfgsb(
                 ),
             )
         else:
-            return checkpoint
+            # same state as the checkpoint, but with the termination report of this
+            # call (the checkpoint carries the one of the run that produced it)
+            return OptimizeResult(
+                fun=f0,
+                jac=checkpoint.jac,
+                nfev=sf.nfev,
+                njev=sf.ngev,
+                nit=istate.nit,
+                status=istate.warnflag,
+                message=istate.task_str,
+                x=x,
+                success=istate.is_success,
+                hess_inv=checkpoint.hess_inv,
+            )
 
     # Compute the first gradient if no checkpoint provided
     if checkpoint is None:
